@@ -102,6 +102,7 @@ func runVariantHere(repo, verifDir, prop string, v Variant) VariantResult {
 			}
 		}()
 		def.Run(c)
+		c.traversalRule()
 	}()
 	count := map[string]int{}
 	for _, o := range c.Obls {
